@@ -526,4 +526,88 @@ class SubshellE2E(Suite):
             yield {"ash": i % 2 == 1, "chunk": rng.choice([1, 4096, 4096]), "prog": prog}
 
 
-SUITES = [EchoSuite(), EnvSuite(), SubshellE2E()]
+class ReadonlyE2E(Suite):
+    """a variable the shell refuses to change (made read-only earlier in the history, or owned by the shell): whatever
+    env(var, value) RETURNS is what the variable holds afterwards -- for the shell and for its children; a refused
+    assignment must not be reported as done.  Real bash and dash, oracle only."""
+    name = "readonly_e2e"
+    model_fn = None
+
+    def run(self, case):
+        import signal
+
+        class Hang(Exception):
+            pass
+
+        def on_alarm(sig, frm):
+            raise Hang()
+
+        trace = []
+        old = signal.signal(signal.SIGALRM, on_alarm)
+        signal.alarm(120)
+        try:
+            with sc.quiet_log():
+                try:
+                    with C01.RealBash() as lh:
+                        with contextlib.ExitStack() as cx:
+                            m = cx.enter_context(C01.RealDash(lh)) if case["ash"] else lh
+                            if case["sub"]:
+                                m = cx.enter_context(m.subshell())
+                            m.ch.READ_CHUNK_SIZE = case["chunk"]
+                            name = case["name"]
+                            if case["old"] is not None:
+                                m.env(name, case["old"])
+                                m.exec0("readonly", name)
+                            try:
+                                ret = m.env(name, case["new"])
+                                trace.append(["set-returned", ret])
+                            except tbot.error.CommandFailure:
+                                trace.append(["set-refused"])
+                            trace.append(["get", m.env(name)])
+                            trace.append(["child", m.exec0("printenv", name).rstrip("\n")])
+                            trace.append(["echo", m.exec0("echo", "still in sync")])
+                except Hang:
+                    trace.append(["hang"])
+        finally:
+            signal.alarm(0)
+            signal.signal(signal.SIGALRM, old)
+        return trace
+
+    def oracle(self, case, obs):
+        fails = []
+        sh = "dash" if case["ash"] else "bash"
+        d = {t[0]: t[1] if len(t) > 1 else None for t in obs}
+        if "hang" in d:
+            return [f"[real {sh}] hang"]
+        if "set-returned" in d:
+            for who in ("get", "child"):
+                if d.get(who) != d["set-returned"]:
+                    fails.append(f"[real {sh}] env({case['name']!r}, {case['new']!r}) returned {d['set-returned']!r} but the variable holds "
+                                 f"{d.get(who)!r} ({'read back with env()' if who == 'get' else 'seen by a child process'}): the shell refused the assignment")
+        elif case["old"] is not None and d.get("get") != case["old"]:
+            fails.append(f"[real {sh}] read-only {case['name']} holds {d.get('get')!r} instead of {case['old']!r}")
+        if d.get("echo") != "still in sync\n":
+            fails.append(f"[real {sh}] the next command returned {d.get('echo')!r}")
+        return fails
+
+    def nontrivial(self, case, obs):
+        return True
+
+    def klass(self, case, obs):
+        return ("dash" if case["ash"] else "bash") + ":" + obs[0][0]
+
+    def finding_key(self, case, obs, failure):
+        return None
+
+    def gen(self, tier, rng):
+        for ash in (False, True):
+            # (not inside an Ash subshell: dash leaves a shell in which a special builtin fails, which is the environment's
+            #  doing and outside the property)
+            for sub in ((False,) if ash else (False, True)):
+                yield {"ash": ash, "sub": sub, "chunk": 4096, "name": "TBOT_RO", "old": "old value", "new": "new"}
+                yield {"ash": ash, "sub": sub, "chunk": 1, "name": "TBOT_RO2", "old": "", "new": "x y"}
+            yield {"ash": ash, "sub": False, "chunk": 4096, "name": "TBOT_FREE", "old": None, "new": "plain set"}
+        yield {"ash": False, "sub": False, "chunk": 4096, "name": "UID", "old": None, "new": "12345"}       # bash owns UID (read-only)
+
+
+SUITES = [EchoSuite(), EnvSuite(), SubshellE2E(), ReadonlyE2E()]
